@@ -226,10 +226,13 @@ func runC10(outer *testing.T) func(t rapid.TB, c c10Case, rec *vx.Case) {
 					rec.Add("single_async_with_sync_ack", 1)
 				}
 				want, _ := applyModel(w, dc, pre, cp.P[0].S, len(cp.P[0].S.E))
-				if len(sim.Diff(without(want, exported.StoreKey), without(post, exported.StoreKey))) == 0 {
-					rec.Add("single_async_effects_persisted", 1)
-				} else {
-					rec.Add("single_async_effects_not_persisted", 1)
+				// an accepted async receive is not a failure: the payload's state changes persist (C09/C10)
+				if d := sim.Diff(without(want, exported.StoreKey), without(post, exported.StoreKey)); len(d) > 0 {
+					vx.Violatef(t, rec, id, "async-effects-not-persisted", "%s: the single payload answered async and the receive was accepted, but application/bank state is not pre-state + its %d scripted effects: differing keys %s", where, len(cp.P[0].S.E), short(d))
+				}
+				rec.Add("single_async_effects_persisted", 1)
+				if touches(w, dc, pre, cp.P[0].S, len(cp.P[0].S.E)) {
+					rec.Add("single_async_with_visible_effects", 1)
 				}
 				// the application answers later: the ack must hold exactly one app ack per payload
 				if cp.AA > 0 && !hasAck {
